@@ -18,9 +18,12 @@ pub enum FamId {
     Var,
     /// the custom scheme with long signatures (64 + up to ~258 padding bytes, fixed per key)
     Wide,
+    /// a toy custom scheme with a 4-byte public key under the key "t" and 6-byte signatures:
+    /// records of ~21 bytes, i.e. below the 56-byte threshold of the long list header
+    Tiny,
 }
 pub const BUILTIN_FAMS: [FamId; 5] = [FamId::K256, FamId::Libsecp, FamId::Ed, FamId::CombinedSecp, FamId::CombinedEd];
-pub const ALL_FAMS: [FamId; 7] = [
+pub const ALL_FAMS: [FamId; 8] = [
     FamId::K256,
     FamId::Libsecp,
     FamId::Ed,
@@ -28,6 +31,7 @@ pub const ALL_FAMS: [FamId; 7] = [
     FamId::CombinedEd,
     FamId::Var,
     FamId::Wide,
+    FamId::Tiny,
 ];
 
 impl FamId {
@@ -43,7 +47,14 @@ impl FamId {
             FamId::Libsecp => Some(KeyType::Libsecp),
             FamId::Ed => Some(KeyType::Ed),
             FamId::CombinedSecp | FamId::CombinedEd => Some(KeyType::Combined),
-            FamId::Var | FamId::Wide => None,
+            FamId::Var | FamId::Wide | FamId::Tiny => None,
+        }
+    }
+    /// name of the public-key entry this family stores
+    pub fn key_name(self) -> &'static [u8] {
+        match self {
+            FamId::Tiny => b"t",
+            f => f.scheme().key_name(),
         }
     }
     pub fn name(self) -> &'static str {
@@ -55,17 +66,22 @@ impl FamId {
             FamId::CombinedEd => "combined-ed",
             FamId::Var => "varkey",
             FamId::Wide => "widekey",
+            FamId::Tiny => "tinykey",
         }
     }
     /// length of signatures of this family, None = variable
     pub fn fixed_sig_len(self) -> Option<usize> {
         match self {
             FamId::Var | FamId::Wide => None,
+            FamId::Tiny => Some(6),
             _ => Some(64),
         }
     }
     /// is `secret` usable as a secret of this family's scheme
     pub fn secret_ok(self, s: &[u8; 32]) -> bool {
+        if self == FamId::Tiny {
+            return true;
+        }
         match self.scheme() {
             Scheme::Secp => crypto::secp_secret_valid(s),
             Scheme::Ed => true,
@@ -73,6 +89,9 @@ impl FamId {
     }
     /// reference-derived public key bytes (as stored in the record)
     pub fn ref_pk(self, s: &[u8; 32]) -> Vec<u8> {
+        if self == FamId::Tiny {
+            return tiny_pk(s).to_vec();
+        }
         match self.scheme() {
             Scheme::Secp => crypto::secp_pk_from_secret(s).expect("valid secret").to_vec(),
             Scheme::Ed => crypto::ed_pk_from_seed(s).to_vec(),
@@ -257,11 +276,77 @@ impl Fam for VarKey {
     }
 }
 
+// ---------------------------------------------------------------------------------------------
+// TinyKey: toy custom scheme (no security claim): public key = keccak256("tiny-pk" || secret)[..4]
+// stored under "t"; signature = keccak256("tiny-sig" || pk || msg)[..6].  Legitimate as an EnrKey
+// implementation; its records are ~21 bytes long.
+
+pub struct TinyKey(pub [u8; 32]);
+#[derive(Clone, Debug)]
+pub struct TinyPub(pub [u8; 4]);
+
+pub fn tiny_pk(secret: &[u8; 32]) -> [u8; 4] {
+    let h = keccak256(&[b"tiny-pk".as_ref(), secret].concat());
+    [h[0], h[1], h[2], h[3]]
+}
+pub fn tiny_sign(pk: &[u8], msg: &[u8]) -> Vec<u8> {
+    keccak256(&[b"tiny-sig".as_ref(), pk, msg].concat())[..6].to_vec()
+}
+pub fn tiny_verify(pk: &[u8], msg: &[u8], sig: &[u8]) -> crypto::Verdict {
+    if pk.len() == 4 && sig == tiny_sign(pk, msg).as_slice() {
+        crypto::Verdict::Valid
+    } else {
+        crypto::Verdict::Invalid
+    }
+}
+impl EnrKey for TinyKey {
+    type PublicKey = TinyPub;
+    fn sign_v4(&self, msg: &[u8]) -> Result<Vec<u8>, SigningError> {
+        Ok(tiny_sign(&tiny_pk(&self.0), msg))
+    }
+    fn public(&self) -> TinyPub {
+        TinyPub(tiny_pk(&self.0))
+    }
+    fn enr_to_public(
+        content: &std::collections::BTreeMap<Vec<u8>, bytes::Bytes>,
+    ) -> Result<TinyPub, alloy_rlp::Error> {
+        let raw = content.get(&b"t"[..]).ok_or(alloy_rlp::Error::Custom("no key"))?;
+        let it = crate::refmodel::rlp::decode_exact(raw).map_err(|_| alloy_rlp::Error::Custom("bad rlp"))?;
+        let b = it.as_str().ok_or(alloy_rlp::Error::Custom("not a string"))?;
+        if b.len() != 4 {
+            return Err(alloy_rlp::Error::Custom("bad key length"));
+        }
+        Ok(TinyPub([b[0], b[1], b[2], b[3]]))
+    }
+}
+impl EnrPublicKey for TinyPub {
+    type Raw = [u8; 4];
+    type RawUncompressed = [u8; 4];
+    fn verify_v4(&self, msg: &[u8], sig: &[u8]) -> bool {
+        tiny_verify(&self.0, msg, sig) == crypto::Verdict::Valid
+    }
+    fn encode(&self) -> [u8; 4] {
+        self.0
+    }
+    fn encode_uncompressed(&self) -> [u8; 4] {
+        self.0
+    }
+    fn enr_key(&self) -> Vec<u8> {
+        b"t".to_vec()
+    }
+}
+impl Fam for TinyKey {
+    fn make(_: FamId, s: &[u8; 32]) -> Self {
+        TinyKey(*s)
+    }
+}
+
 /// Harness-side signature for a record of family `id` (independent signer).
 /// `alt` selects k256-direct instead of libsecp for secp schemes.
 pub fn ref_sign(id: FamId, secret: &[u8; 32], content: &[u8], alt: bool) -> Vec<u8> {
     match id {
         FamId::Var | FamId::Wide => var_sign(secret, content, var_units(id, secret)),
+        FamId::Tiny => tiny_sign(&tiny_pk(secret), content),
         _ => match id.scheme() {
             Scheme::Secp => {
                 if alt {
